@@ -153,6 +153,8 @@ func (c *CRLRevocationChecker) initCRLUpdateTicker() {
 	parsed := c.crlConfig.UpdateIntervalParsed
 	c.crlUpdateTicker = time.NewTicker(parsed)
 	c.crlUpdateStop = make(chan struct{})
+	//the goroutine must not read the field, Cleanup resets it
+	crlUpdateStop := c.crlUpdateStop
 	go func() {
 		defer func() {
 			if err := recover(); err != nil {
@@ -162,7 +164,7 @@ func (c *CRLRevocationChecker) initCRLUpdateTicker() {
 		c.updateCRLs(false)
 		for {
 			select {
-			case <-c.crlUpdateStop:
+			case <-crlUpdateStop:
 				return
 			case <-c.crlUpdateTicker.C:
 				go c.updateCRLsRecovering(false)
